@@ -611,6 +611,8 @@ def ordered_cases(tier, rng):
         ws = [w for w in walls[:40] if zm.spaced(w)][:20]
         if ws:
             yield case_line('lz.env', data, zm.tagged(data), 1, ws)
+        # the conversions into / out of DateTime<Local> (From impls, FromStr, SystemTime) at instants
+        yield case_line('lz.conv', data, zm.tagged(data), ins[20:32] or ins[:12])
 
 
 def refine(cases, impl, model, verdicts, run_both):
